@@ -39,14 +39,17 @@ const kitReadState = -7777
 // ---------------------------------------------------------------- implementation (plugin side)
 
 type kitImpl struct {
-	tag   int
-	state int64
-	mu    sync.Mutex
+	tag int
+	mu  sync.Mutex
 }
+
+// kitState is the plugin process's state cell (process-wide: net/rpc creates one
+// implementation object per Dispense, gRPC one per process; the cell identifies the instance).
+var kitState int64
 
 func (k *kitImpl) Double(n int) (int, error) {
 	if n == kitReadState {
-		return int(atomic.LoadInt64(&k.state)), nil
+		return int(atomic.LoadInt64(&kitState)), nil
 	}
 	return 2*n + k.tag, nil
 }
@@ -54,7 +57,7 @@ func (k *kitImpl) Double(n int) (int, error) {
 func (k *kitImpl) Cmd(key string, val int) error {
 	switch key {
 	case "set":
-		atomic.StoreInt64(&k.state, int64(val))
+		atomic.StoreInt64(&kitState, int64(val))
 	case "exit":
 		os.Exit(val)
 	case "kill":
